@@ -7,6 +7,7 @@ import (
 	"math/rand"
 	"runtime"
 	"sort"
+	"strings"
 	"sync"
 	"time"
 
@@ -78,7 +79,9 @@ func buildC17Shared(g *model.Gen) (*c17Shared, error) {
 			a.Canon, a.Profile = extprof.ExtP2Name, model.SP(extprof.ExtP2Name)
 		}
 		if i == 2 {
-			a.Profile = nil // profile 1 without the (optional) profile claim
+			a.Profile = nil  // profile 1 without the (optional) profile claim
+			two := uint64(2) // ... asserting "no software measurements" with a value other than 1
+			a.HasComps, a.Comps, a.NoMeas = false, nil, &two
 		}
 		if i == 5 {
 			// an invalid set is read just the same
@@ -136,6 +139,19 @@ func buildC17Shared(g *model.Gen) (*c17Shared, error) {
 			return nil, fmt.Errorf("group extension %d: %w", i, err)
 		}
 		s.groups = append(s.groups, x.(*extprof.ExtGroupClaims))
+	}
+	// a decoded profile-1 set asserting "no software measurements" with a value
+	// other than 1, untouched (never encoded) before the round
+	{
+		a := g.Valid(1)
+		v := uint64(2 + g.R.Intn(250))
+		a.HasComps, a.Comps, a.NoMeas = false, nil, &v
+		x, err := psatoken.DecodeClaimsFromCBOR(refcbor.Encode(a.WireCBOR()))
+		if err != nil {
+			return nil, fmt.Errorf("flag-valued shared claims: %w", err)
+		}
+		s.claims = append(s.claims, x)
+		s.cnames = append(s.cnames, "claims:P1-no-sw-measurements-value-not-1:decoded")
 	}
 	// one of them is also an ordinary shared claims-set of the round
 	s.claims = append(s.claims, s.groups[0])
@@ -431,7 +447,7 @@ func derefB(p *[]byte) []byte {
 }
 
 func runC17(c *mon.Ctx) {
-	c.Rule("worker built with the Go race detector (GORACE halt_on_error=0, reports collected and de-duplicated by the supervisor; any report with a library frame is a violation). Rounds: G in {16,32,64} goroutines x GOMAXPROCS in {2,4,16}; each goroutine runs a seeded random mix of (a) read-only operations on SHARED claims-sets (P1, P2, extension; built by setters, by direct assignment and by decoding; one invalid; an extension with a nil pointer-embedded claim group and pointer-receiver codecs - four fresh ones per round, serialised for the FIRST time by all goroutines at once, and still nil afterwards; two with 12 software components, in one of which four components are invalid in different ways - the digest of Validate and GetSoftwareComponents is the full error text) - Validate, all getters, component getters, CBOR/JSON encoding validating and not - and on SHARED Evidence (self-signed and decoded): Verify with right and wrong key, GetInstanceID, GetImplementationID, MarshalJSON; a goroutine's own Evidence signing a SHARED claims-set (one of them profile 1 without profile claim); after the mixed pass one shared decoded Evidence is verified by all goroutines at once 120 times each (right key, wrong key, non-key) and every result must be the lone caller's; (b) operations on PRIVATE objects: NewClaims for every registered profile, setters, decode CBOR / JSON / COSE, validate, read, encode, SetClaims, ValidateAndSign, Verify, and extension-profile encode / decode through the embedding-aware codec including decodes that fail half-way (duplicate key, text key, truncated). Profiles are only ever registered while no goroutine is running: the extension before the first round and one fresh profile before EVERY round, and each round runs its concurrent pass first, so that anything initialised lazily on first use (after a registration) is initialised under concurrency. The same seeds are then run sequentially; every operation's result digest must be identical in the concurrent run (signatures: verifies + payload equality). Call/return times from one monotonic clock give the number of operation pairs that actually overlapped on the same shared object; a round without such overlaps is inconclusive. Monitor state is per goroutine and merged after Wait(). distinct_nontrivial = distinct (round configuration, operation kind, object) signatures")
+	c.Rule("worker built with the Go race detector (GORACE halt_on_error=0, reports collected and de-duplicated by the supervisor; any report with a library frame is a violation). Rounds: G in {16,32,64} goroutines x GOMAXPROCS in {2,4,16}; each goroutine runs a seeded random mix of (a) read-only operations on SHARED claims-sets (P1, P2, extension; built by setters, by direct assignment and by decoding; one invalid; an extension with a nil pointer-embedded claim group and pointer-receiver codecs - four fresh ones per round, serialised for the FIRST time by all goroutines at once, and still nil afterwards; two with 12 software components, in one of which four components are invalid in different ways - the digest of Validate and GetSoftwareComponents is the full error text) - Validate, all getters, component getters, CBOR/JSON encoding validating and not - and on SHARED Evidence (self-signed and decoded): Verify with right and wrong key, GetInstanceID, GetImplementationID, MarshalJSON; a goroutine's own Evidence signing a SHARED claims-set (one of them profile 1 without profile claim); after the mixed pass one shared decoded Evidence is verified by all goroutines at once 120 times each (right key, wrong key, non-key) and every result must be the lone caller's; (b) operations on PRIVATE objects: NewClaims for every registered profile, setters, decode CBOR / JSON / COSE, validate, read, encode, SetClaims, ValidateAndSign, Verify, and extension-profile encode / decode through the embedding-aware codec including decodes that fail half-way (duplicate key, text key, truncated). Profiles are only ever registered while no goroutine is running: the extension before the first round and one fresh profile before EVERY round, and each round runs its concurrent pass first, so that anything initialised lazily on first use (after a registration) is initialised under concurrency. A deep snapshot of every shared object taken before the concurrent pass must equal the one taken after it. The same seeds are then run sequentially; every operation's result digest must be identical in the concurrent run (signatures: verifies + payload equality). Call/return times from one monotonic clock give the number of operation pairs that actually overlapped on the same shared object; a round without such overlaps is inconclusive. Monitor state is per goroutine and merged after Wait(). distinct_nontrivial = distinct (round configuration, operation kind, object) signatures")
 	if err := extprof.Register(extprof.ExtP2Name); err != nil {
 		c.Violation("harness/register", err.Error(), nil)
 		return
@@ -475,6 +491,15 @@ func runC17(c *mon.Ctx) {
 				return
 			}
 			c.Count("registrations-between-rounds")
+			// every shared object is only READ during the round: its reachable state
+			// before and after the concurrent pass must be identical
+			var before []string
+			for _, x := range s.claims {
+				before = append(before, mon.DeepDump(x))
+			}
+			for _, e := range s.ev {
+				before = append(before, mon.DeepDump(e))
+			}
 			// concurrent run
 			runtime.GOMAXPROCS(rc.procs)
 			conc := make([][]c17Event, rc.G)
@@ -538,6 +563,24 @@ func runC17(c *mon.Ctx) {
 					if d != "" {
 						c.Violation("C17/result-differs-from-sequential/hammered-Evidence.Verify", "one shared decoded Evidence verified by all goroutines at once: "+d, map[string]any{"round": fmt.Sprintf("G=%d,GOMAXPROCS=%d", rc.G, rc.procs)})
 						break
+					}
+				}
+			}
+			{
+				var after []string
+				var names []string
+				for i, x := range s.claims {
+					after = append(after, mon.DeepDump(x))
+					names = append(names, s.cnames[i])
+				}
+				for i, e := range s.ev {
+					after = append(after, mon.DeepDump(e))
+					names = append(names, s.enames[i])
+				}
+				for i := range after {
+					c.Count("shared-object-snapshots-compared")
+					if i < len(before) && after[i] != before[i] {
+						c.Violation("C17/shared-object-changed-by-reading/"+strings.SplitN(names[i], ":", 3)[0], "a shared object that was only read / encoded / verified / signed-from during the concurrent pass has changed: "+names[i], map[string]any{"object": names[i], "diff": firstDiff(before[i], after[i])})
 					}
 				}
 			}
